@@ -305,6 +305,13 @@ impl Sub {
                     }
                     stack.push((*f, *key, 0));
                 }
+                Rec::SpecPrevAttempt { .. } => stats.bump("specify_attempts_on_a_struct_of_the_previous_execution", 1),
+                Rec::SpecPrevAccepted { id, .. } => {
+                    return Err((
+                        "specify-accepted-for-a-struct-of-a-previous-execution".into(),
+                        format!("`specify` was accepted for struct {id}, which the current execution of its creator has not created (the handle was kept outside salsa from the previous execution): it must panic"),
+                    ));
+                }
                 Rec::Made { id, variant, .. } => {
                     if let Some(fr) = stack.iter_mut().rev().find(|fr| fr.0 == F::Mk) {
                         if *variant == 0 {
